@@ -65,6 +65,13 @@ func propC18() *fw.Prop {
 	}
 }
 
+// the previous analysis result of this worker process, re-examined after the next one
+var (
+	keptText   string
+	keptResult analysis.CheckResult
+	keptDiags  string
+)
+
 func checkEditorText(c *fw.Ctx, text, origin string) bool {
 	input := func() any { return map[string]any{"text": text, "origin": origin} }
 	var r1, r2 analysis.CheckResult
@@ -87,6 +94,20 @@ func checkEditorText(c *fw.Ctx, text, origin string) bool {
 		c.Violation("diagnostics-differ", fmt.Sprintf("two analyses of the same text differ: %v ⏎ vs ⏎ %v", d1, d2), input())
 		return false
 	}
+	// a result handed out for an earlier text must still be what it was
+	if keptText != "" {
+		var now []string
+		if !c.Guard("Diagnostic.Message(kept)", func() any { return map[string]any{"text": keptText} }, func() { now = diagSet(keptResult.Diagnostics) }) {
+			return false
+		}
+		if strings.Join(now, "\n") != keptDiags {
+			c.Violation("earlier-result-changed", fmt.Sprintf("the diagnostics returned for an earlier text changed after later analyses: were %q, are now %q", keptDiags, strings.Join(now, "\n")),
+				map[string]any{"earlier_text": keptText, "later_text": text})
+			return false
+		}
+		c.Count("kept_results_rechecked", 1)
+	}
+	keptText, keptResult, keptDiags = text, r1, strings.Join(d1, "\n")
 	y1, y2 := symbolSet(s1), symbolSet(s2)
 	c.Count("symbols_compared", len(y1))
 	if strings.Join(y1, "\n") != strings.Join(y2, "\n") {
